@@ -11,6 +11,7 @@ package main
 // and evaluates in Go the oracle "optimizer on = optimizer off".
 
 import (
+	"path/filepath"
 	"encoding/json"
 	"fmt"
 	"io"
@@ -349,6 +350,9 @@ func c01HumanValue(t *Tree) any {
 }
 
 type c01Run struct {
+	tw      *CaseWriter // text-to-ast condition: tokens + the parser's AST (nil: not checked)
+	tokMax  int         // token budget per program for the text-to-ast condition
+	tokEvery int        // quick tier: every tokEvery-th program is checked (the corpus always)
 	sum     *Summary
 	cw      *CaseWriter
 	texts   map[string]bool
@@ -382,6 +386,7 @@ func (r *c01Run) runCase(p *pgProgram, id int) {
 		fmt.Fprintf(os.Stderr, "case %d: %s\n", id, text)
 	}
 	term, perr, unsupported := c01ParseOff(text, p.ArgNames)
+	r.textToAst(p, id, text, term, perr, unsupported)
 	if unsupported != "" {
 		sum.Skipped["ast-dump-unsupported: "+unsupported]++
 		return
@@ -604,6 +609,49 @@ func c01Corpus() []*pgProgram {
 	}
 }
 
+// ---------- text -> AST: the tokens the real tokenizer delivered and the AST the real parser built ----------
+
+const c01TextIDBase = 1000000 // ids of the text-to-ast cases: c01TextIDBase + id of the program's case
+
+// textToAst hands the token list of the program text and the dumped (optimizer off) AST to Coq, where the parser
+// model runs on the tokens and its AST is lowered to the form of the dump (Run/C01TextRun.v)
+func (r *c01Run) textToAst(p *pgProgram, id int, text, term string, perr error, unsupported string) {
+	if r.tw == nil || unsupported != "" {
+		return
+	}
+	if r.tokEvery > 1 && id > 20 && id%r.tokEvery != 0 {
+		r.sum.Count("text_to_ast", "not sampled (quick tier checks every second program)")
+		return
+	}
+	var toks []parser2.VerifPTok
+	func() {
+		defer func() { recover() }()
+		toks = c01FgOff.GetParser().VerifParseTokens(text)
+	}()
+	if len(toks) == 0 || len(toks) > r.tokMax {
+		r.sum.Count("text_to_ast", "not sampled (token budget)")
+		return
+	}
+	r.sum.Count("text_to_ast", "checked")
+	r.sum.Count("text_to_ast_tokens", bucket(len(toks)))
+	var tl []string
+	for _, k := range toks {
+		tl = append(tl, fmt.Sprintf("(%d,%s)", k.Typ, CoqStr(k.Image)))
+	}
+	a := "None"
+	if perr == nil {
+		a = "(Some " + term + ")"
+	}
+	tid := c01TextIDBase + id
+	r.tw.Add(fmt.Sprintf("(%d, %s,\n  %s,\n  %s)", tid, pgCoqNames(p.ArgNames), CoqList(tl), a))
+	h := map[string]any{"text": text, "arg_names": p.ArgNames, "signature": "text-to-ast", "repro": p,
+		"what": "the parser model on the real tokens, lowered to the semantic AST (Syn/Lower.v), differs from the AST the real parser built"}
+	if perr != nil {
+		h["parse_error"] = perr.Error()
+	}
+	r.sum.Cases[fmt.Sprint(tid)] = h
+}
+
 // ---------- command ----------
 
 func cmdC01(seed int64, tier, outDir string) {
@@ -620,10 +668,16 @@ func cmdC01(seed int64, tier, outDir string) {
 	sum.Rule = "type-directed programs of the value language (operators, unary, let, func with recursion, closures with 1..4 parameters and up to 3+ levels, if, switch, try/catch/throw, list/map literals, index, member access, methods and static functions of the modelled pool, map-field closures, currying; binders boosted inside call/method/literal arguments; <= 40 nodes quick, <= 120 thorough) x 3 argument tuples over ints, floats, strings, bools, lists, maps; implementation run with and without the optimizer. Distinct non-trivial: distinct program texts that generate without error, contain a binder inside a call/method/list/map argument or >= 2 closure levels, and whose three argument tuples do not all give the same observation"
 	cw := NewCaseWriter(outDir, "From P2 Require Import Base.Prelude Sem.Num Sem.Syntax Sem.Obs Run.C01Run.", "c01_case", "c01_id", "c01_im", "c01_is", 100)
 	cw.epilogue = "Definition c01_counts := Eval vm_compute in c01_stats cases.\nPrint c01_counts.\n"
-	run := &c01Run{sum: sum, cw: cw, texts: map[string]bool{}}
+	tw := NewCaseWriter(filepath.Join(outDir, "text"), "From P2 Require Import Base.Prelude Sem.Num Sem.Syntax Run.C01TextRun.", "c01t_case", "c01t_id", "c01t_im", "c01t_is", 150)
+	tw.epilogue = "Definition c01t_counts := Eval vm_compute in c01t_stats cases.\nPrint c01t_counts.\n"
+	run := &c01Run{sum: sum, cw: cw, tw: tw, tokMax: 120, tokEvery: 2, texts: map[string]bool{}}
+	if tier == "thorough" {
+		run.tokEvery = 1
+	}
 	finish := func() {
 		cw.Flush()
-		sum.CaseFiles = cw.files
+		tw.Flush()
+		sum.CaseFiles = append(append([]string{}, cw.files...), tw.files...)
 		if run.allOut > 0 {
 			share := float64(run.errOuts) / float64(run.allOut)
 			sum.Extra["error_outcome_share"] = math.Round(share*1000) / 1000
